@@ -152,6 +152,8 @@ impl Report {
     for l in &lines { println!("{}", l); }
     // evidence
     let mut samples = self.out.samples.clone();
+    // the evidence schema wants at least one real case: fall back on the first failing observation, and say so if there is none
+    if samples.is_empty() { if let Some(f) = self.out.failures.first() { samples.push(json!({"case": f.case, "observed": f.detail})); } else { self.vacuity.push("no sample case was recorded by any unit".into()); } }
     if !samples.is_empty() { let r = (seed.unsigned_abs() as usize) % samples.len(); samples.rotate_left(r); samples.truncate(6); }
     let mut cov = serde_json::Map::new();
     cov.insert("evaluations".into(), json!(self.out.evaluations));
